@@ -188,13 +188,20 @@ theorem endtag_roundtrip (P : Params) (cd : Option PStr) (name rest : PStr) (hn 
 example : NameOK (BS.ofS "h1") := ⟨104, [49], by decide, by decide, by decide⟩
 example : parseEndTag P0 none (BS.ofS "</h1>x") = .ok (.et (BS.ofS "h1")) 5 none := by decide
 
-/-- **comments round-trip** (partial: bodies without `-`; the full statement allows any body without `--` that does not
-    end in `-` — with `--` inside, `commentclose = --\s*>` can match early, e.g. `<!--a-- >b-->`). `parse_comment` on
-    `<!--body-->` calls `handle_comment(body)` and returns the index just after the `>`. -/
-theorem comment_roundtrip_partial (cd : Option PStr) (body rest : PStr) (hb : ∀ x ∈ body, x ≠ 45) :
-    parseComment cd (writeComment body ++ rest) = .ok (.cm body) (writeComment body).length cd :=
-  parseComment_write_partial cd body rest hb
+/-- **comments round-trip** (partial: bodies without `>`, or without `-`). `parse_comment` on `<!--body-->` calls
+    `handle_comment(body)` and returns the index just after the `>`. Dashes in the body are harmless as long as no `>`
+    follows (`commentclose = --\s*>` needs one): `<!--a--b--->` gives `a--b-`. What is missing for the exact
+    characterisation: bodies that contain `>` and `-` but no match of `--\s*>` (with one, CPython ends the comment
+    early: `<!--a-- >b-->` gives `a`). -/
+theorem comment_roundtrip_partial (cd : Option PStr) (body rest : PStr)
+    (hb : (∀ x ∈ body, x ≠ 62) ∨ (∀ x ∈ body, x ≠ 45)) :
+    parseComment cd (writeComment body ++ rest) = .ok (.cm body) (writeComment body).length cd := by
+  rcases hb with hb | hb
+  · exact parseComment_write_nogt cd body rest hb
+  · exact parseComment_write_partial cd body rest hb
 
+example : parseComment none (BS.ofS "<!--a--b--->x") = .ok (.cm (BS.ofS "a--b-")) 12 none := by decide
+example : parseComment none (BS.ofS "<!--a-- >b-->x") = .ok (.cm (BS.ofS "a")) 9 none := by decide
 example : parseComment none (BS.ofS "<!-- a>b -->x") = .ok (.cm (BS.ofS " a>b ")) 12 none := by decide
 
 /-- **start tags round-trip.** For the writer `writeTag name attrs = <name k="v" …>` (names and attribute names over
